@@ -159,6 +159,9 @@ pub fn run_e7(spec: &ShardSpec, cur: Option<&str>) -> Outcome {
     // head-room probe (a pending resize must keep its head-room through a shrink at any size)
     let shrink_frac: u32 = spec.extra.get("shrink_frac").and_then(|s| s.parse().ok()).unwrap_or(0);
     let mut next_remove: u32 = 0;
+    // at every resize start: a reserve / try_reserve / shrink_to with a boundary argument (rotating),
+    // then the head-room probe (C10 at scale)
+    let reserve_mode = spec.extra.get("reserve_at_resize").map_or(false, |s| s == "1");
     let mut since_resize = u32::MAX;
     let mut out = Outcome::default();
     let mut curf = CurFile::new(cur);
@@ -216,6 +219,28 @@ pub fn run_e7(spec: &ShardSpec, cur: Option<&str>) -> Outcome {
             since_resize = 0;
         } else if since_resize != u32::MAX {
             since_resize += 1;
+        }
+        if reserve_mode && since_resize == 1 {
+            let free = (w.m.capacity() - w.m.len()) as u64;
+            let len = w.m.len() as u64;
+            let menu = [
+                Op::arg(OpK::Reserve, free.saturating_sub(1)),
+                Op::arg(OpK::Reserve, free),
+                Op::arg(OpK::Reserve, free + 1),
+                Op::arg(OpK::TryReserve, free + len / 8),
+                Op::arg(OpK::Reserve, len),
+                Op::arg(OpK::ShrinkTo, len + len / 16),
+                Op::arg(OpK::ShrinkTo, len + len / 8 + 1),
+                Op::arg(OpK::TryReserve, 2 * free + 4),
+            ];
+            let op = menu[(resizes as usize + spec.cap0) % menu.len()];
+            for o in [op, Op::k(OpK::FillToCap)] {
+                if !do_op(&mut w, o, &mut out, &mut hist_tail) {
+                    break 'grow;
+                }
+            }
+            k = w.next_key;
+            since_resize = u32::MAX;
         }
         if shrink_frac > 0 && since_resize == 1 {
             let m = (w.r.len() as u32 / shrink_frac).max(1);
